@@ -107,7 +107,7 @@ func c03Sizes(c *Ctx) {
 		}
 		errT := b.Of(e.Results[1], e.Instr)
 		if errT.Is("nil") {
-			r.Check(mustPass(fn, e.Instr.Block(), plainEdges(acc)), "C03.entropy-sizes.gate", c.ipos(e.Instr), "success return only after the size validator returned nil")
+			r.Check(exitMustPass(fn, e, plainEdges(acc)), "C03.entropy-sizes.gate", c.ipos(e.Instr), "success return only after the size validator returned nil")
 		} else {
 			_, ok := ana.Match("call<*>(p0)", errT)
 			r.Check(ok && calleeOf(errT) == val && b.Of(e.Results[0], e.Instr).Is("nil"), "C03.entropy-sizes.error-propagated", c.ipos(e.Instr), "error return propagates the validator's error and returns no mnemonic: %s", short(errT.String(), 120))
@@ -192,7 +192,7 @@ func c03Decode(c *Ctx) {
 			}
 			errT := vb.Of(e.Results[0], e.Instr)
 			if errT.Is("nil") {
-				r.Check(e.Instr.Block() == wl.Exit || mustPass(val, e.Instr.Block(), []ana.Edge{{From: wl.Header, To: wl.Exit}}), "C03.word-counts.nil-after-loop", c.ipos(e.Instr), "nil is returned only after the word loop completed")
+				r.Check(e.Instr.Block() == wl.Exit || exitMustPass(val, e, []ana.Edge{{From: wl.Header, To: wl.Exit}}), "C03.word-counts.nil-after-loop", c.ipos(e.Instr), "nil is returned only after the word loop completed")
 			} else {
 				g, _ := ana.Find("load(global<repo/pkg/bip39.ErrInvalidMnemonic>)", errT)
 				r.Check(g != nil, "C03.word-counts.error-kind", c.ipos(e.Instr), "reject wraps ErrInvalidMnemonic")
@@ -207,7 +207,7 @@ func c03Decode(c *Ctx) {
 	for _, e := range ana.Exits(fn) {
 		if e.Panic {
 			// the defensive panic on an out-of-range index must be unreachable for a wordlist.List within contract; it sits behind the validator
-			r.Check(mustPass(fn, e.Instr.Block(), plainEdges(acc)), "C03.word-counts.panic-behind-validation", c.ipos(e.Instr), "defensive panic lies behind successful validation")
+			r.Check(exitMustPass(fn, e, plainEdges(acc)), "C03.word-counts.panic-behind-validation", c.ipos(e.Instr), "defensive panic lies behind successful validation")
 			continue
 		}
 		errT := b.Of(e.Results[1], e.Instr)
@@ -224,7 +224,7 @@ func c03Decode(c *Ctx) {
 			r.Viol("C03.checksum-gate.present", c.ipos(e.Instr), "no comparison of the decoded checksum with a recomputed one guards the success return")
 			continue
 		}
-		r.Check(mustPass(fn, e.Instr.Block(), plainEdges(gate)), "C03.checksum-gate.present", c.ipos(e.Instr), "success return passes Cmp(checksum, recomputed)==0")
+		r.Check(exitMustPass(fn, e, plainEdges(gate)), "C03.checksum-gate.present", c.ipos(e.Instr), "success return passes Cmp(checksum, recomputed)==0")
 		bd, _ := ana.MatchAny(gate[0].Lit, "bin<==>(call<(*math/big.Int).Cmp>($x, call<*>($e, $n)), 0)", "bin<==>(call<(*math/big.Int).Cmp>(call<*>($e, $n), $x), 0)")
 		r.Check(bd["$e"].String() == valT.String(), "C03.checksum-gate.same-bytes", c.ipos(e.Instr), "the bytes whose checksum is recomputed are exactly the bytes returned")
 		// decoded checksum = decoder & (2^n - 1), n = ENT/32; entropy = decoder >> n
@@ -285,7 +285,7 @@ func c03Decode(c *Ctx) {
 		for _, e := range ana.Exits(h) {
 			if e.Panic {
 				es := edgesMatching(hb, "bin<>>(p1, 256)")
-				r.Check(mustPass(h, e.Instr.Block(), plainEdges(es)), "C03.checksum-gate.helper-panic", c.ipos(e.Instr), "checksum helper panics only for numBits > 256")
+				r.Check(exitMustPass(h, e, plainEdges(es)), "C03.checksum-gate.helper-panic", c.ipos(e.Instr), "checksum helper panics only for numBits > 256")
 				continue
 			}
 			t := hb.Of(e.Results[0], e.Instr)
